@@ -58,7 +58,7 @@ def targetOp (op : String) (args : List String) : Option J :=
   | "target.int", [s] => do
       let s ← decStr s
       pure (match pyInt s with | some i => jok (.str (toString i).toList) | none => jerr .value)
-  | "target.strip", [s] => do let s ← decStr s; pure (jok (.str (strip s)))
+  | "target.strip", [s] => do let s ← decStr s; pure (jok (.str (pyStrip s)))
   | "target.isv6", [s] => do let s ← decStr s; pure (jok (.bool (isIPv6 s)))
   | "target.file", [s] => do let s ← decStr s; pure (jok (J.ofStrs (fileTargets s)))
   | "target.label", [h, p] => do
